@@ -391,6 +391,7 @@ func hasOperand(op vm.Opcode) bool {
 		vm.OpCall:        true,
 		vm.OpBuildObject: true,
 		vm.OpBuildArray:  true,
+		vm.OpAsync:       true, // length of the block body that follows
 	}
 	return withOperand[op]
 }
